@@ -507,6 +507,24 @@ static void big_solver_item (int fam, int qi, int extra)
 	bm_free (M);
 	vf_stat_add (st_states, 1);
 }
+/* contiguous sweep: EVERY number of unknowns 5..200 (thorough ..400) on four families, p - q in {0, 3}, symbol length and
+ * right-hand-side mode rotating with q (numbers of unknowns that are neither small nor next to a word boundary) */
+static int SWQ_LO = 5, SWQ_HI = 200;
+static void sweep_solver_item (long it, void *arg)
+{
+	static const int FAM[] = {6, 7, 1, 5}, LEN[] = {13, 33, 8, 1};
+	int q = SWQ_LO + (int) it, f, extra;
+	(void) arg;
+	vf_slot_set_prop ("C18");
+	for (f = 0; f < 4; f++) for (extra = 0; extra <= 3; extra += 3) {
+		char d[160]; int len = LEN[(q + f) % 4], nr = (q + f + extra) % 3;
+		bitmat *M = big_family (FAM[f], q + extra, q);
+		snprintf (d, sizeof d, "bigsolver fam=%d q=%d extra=%d len=%d nullrhs=%d", FAM[f], q, extra, len, nr);
+		solve_case (q + extra, q, NULL, M, len, nr, d);
+		bm_free (M);
+	}
+	vf_stat_add (st_states, 1);
+}
 static void big_item (long it, void *arg)
 {
 	(void) arg;
@@ -597,7 +615,9 @@ int main (int argc, char **argv)
 		vf_sample ("ops dims=2x33,2x33: alphabet = flip/set at cells (row 0/last) x (col 0,30,31,32,last), clear, copy, copyrows (all index vectors), copycols (5 column maps), xor_rows (all ordered row pairs); after every step all cells, weights, emptiness, density compared");
 	} else if (!strcmp (mode, "big")) {
 		vf_pool_run ((long) NBSH * NBPAT + (long) NBFAM * NBQ * 2, big_item, NULL, 0);
-		vf_outcome ("big_ops_scripts", NBSH * NBPAT); vf_outcome ("big_solver_systems", NBFAM * NBQ * 2);
+		if (vf_tier_thorough ()) SWQ_HI = 400;
+		vf_pool_run (SWQ_HI - SWQ_LO + 1, sweep_solver_item, NULL, 0);
+		vf_outcome ("big_ops_scripts", NBSH * NBPAT); vf_outcome ("big_solver_systems", NBFAM * NBQ * 2); vf_outcome ("solver_sweep_unknowns", SWQ_HI - SWQ_LO + 1);
 		vf_sample ("bigsolver fam=1 (lower-all-ones) q=65 extra=3 len=129: status OK, 65 variables equal the known solution");
 	} else if (!strcmp (mode, "popcnt")) {
 		vf_pool_run (256, pop_item, NULL, 0);
